@@ -10,7 +10,8 @@ META = {
     "technique": "Coq proof (invariant shadow = visible by induction over receiver ops) + event-fold monitor on the implementation + per-step event correspondence",
 }
 ASSUMPTIONS = ["incoming entries are key-consistent (internal flag determined by the key) - true of entries written by honest owners",
-               "the local node is never the subject of an event (it is not: applyDeltaEntry discards it, liveness/expiry skip it)"]
+               "the local node is never the subject of an event (it is not: applyDeltaEntry discards it, liveness/expiry skip it)",
+               "node ids are valid UTF-8 (cluster configuration); since fix U1 the real ApplyDigest/applyDeltaEntry ignore any other id, the world model applies the same filter where forged packets enter (WInject, Gossip/World.v sanitize_body)"]
 TRUSTED = ["python fold monitor (props/C14.py)"]
 
 PROFILE = {"min_nodes": 2, "max_nodes": 4, "min_ops": 20, "max_ops": 70, "nkeys": 7,
